@@ -28,7 +28,7 @@ RULE = ("family pm/k: random GENERAL setups (non-collinear, small waists, ellipt
         "divs ∈ {3,4,5,6,7,10,16,20,33,50,100,130,200}; family pm/c05: collinear large-waist family (waists 2–20 mm independent per beam, "
         "L 0.5–20 mm, all crystals/types, poled with the crate's optimum period or unpoled with its optimum angle; combinations the "
         "crate cannot phase-match are counted and skipped) × one random direction of the (ω_s, ω_i) plane × 17 (33 thorough) detunings "
-        "with Δk_z L/2 spread over [−4π, 4π] + 12 targets at the sinc zeros / lobe ends (±3.95π, ±3.98π, ±(4π−δ), kπ(1±2%), kπ±1e-3) × integrators Simpson-50/51/100/128–131/200/400, Gauss–Legendre-20/40/60, AdaptiveSimpson(1e-6|1e-8, depth 10|12), ClenshawCurtis; sub-families: co-propagating, counter-propagating (signal backward / idler backward), biaxial tilted cuts; ρ by an independent central difference")
+        "with Δk_z L/2 spread over [−4π, 4π] + 12 targets at the sinc zeros / lobe ends (±3.95π, ±3.98π, ±(4π−δ), kπ(1±2%), kπ±1e-3) × integrators Simpson-50/51/100/128–131/200/400, Gauss–Legendre-20/40/60, AdaptiveSimpson(1e-6|1e-8, depth 10|12), ClenshawCurtis; sub-families: co-propagating, counter-propagating (signal backward / idler backward), biaxial tilted cuts; ρ by an independent central difference; hand-assembled geometries (about 40 % of the setups, one or more edits after the crate's optimum calls): crystal_setup.counter_propagation flipped alone (flag vs beam directions disagree: flag set with both beams forward, flag clear with a backward signal or idler), crystal_setup.pm_type edited alone (label vs beam polarisations), azimuth of an on-axis beam set by hand, idler / signal / both turned round by hand with set_angles (theta -> 180 deg - theta, flag untouched) and re-phase-matched by a harness-side grating 2 pi / dk_z; details start edited=<tags> flag=<0|1>")
 RESIDUAL = ("(a) neglect of diffraction, (b) quadrature error on the oscillating integrand — numeric, measured only; (c) the erf "
             "identification; (d) 'negligible walk-off/diffraction' is made quantitative in the predicate (x ≤ 0.04, L/(kW²) ≤ 1e-3) — "
             "see notes/C05.md")
